@@ -76,6 +76,7 @@ def main(ctx):
     res = tlc.run("MC_DotDict", cfge, spec_dir=wd, timeout=2400)
     ev.tlc("emit", res)
     ops = [j["o"] for j in res.json if j.get("k") == "op"]
+    emitted_json = res.json
     states, seen = [], set()
     for j in res.json:
         if j.get("k") == "state":
@@ -162,6 +163,15 @@ def main(ctx):
         e = ln["ev"][0]
         ctx.violation("copyside_%s" % e["o"]["key"], {"from": ln["from"], "ev": ln["ev"], "op": "copy-mutate"},
                       what="operation on a copy differs from the same operation on the original: %s" % json.dumps(e))
+    # every reserved name (MC_DotDict!ReservedNames), every assignment form
+    rn = [j["names"] for j in emitted_json if j.get("k") == "reserved"]
+    if not rn:
+        ctx.machinery.append("no reserved names emitted")
+        return
+    for name in rn[0]:
+        ev.case(key=("reserved", name), nontrivial=True)
+        for prob in ddlib.reserved_probe(name):
+            ctx.violation("reserved_%s" % name, {"reserved": name, "problem": prob}, what="reserved name: " + prob)
     ev.exhaustive = True
     ev.extra.update({"operations": len(ops), "states": len(states), "histories": nh, "copy_cases": len(cjobs)})
 
